@@ -15,6 +15,33 @@ EXPLANATION = (
 ALLOWED_ON_COMMENT = {'cfg_yylex', 'cfg_handle_deprecated', 'free', 'strdup'}
 
 
+def token_fetchers(c, chk, rid='R15.11'):
+    """R15.11: the automaton deals with the comment token where it fetches tokens, for every state at once (R15.1).  A function
+    other than the automaton that fetches tokens itself (a helper that reads the rest of a statement) has to do the same: when the
+    token it fetched is a comment, the next thing it does is fetch another one - it neither reports, nor returns, nor takes the
+    comment for the token it was waiting for"""
+    chk.rule(rid, 'every function that fetches tokens passes over a comment token: on the path where the fetched token is CFGT_COMMENT it fetches again, with no diagnostic and no return')
+    n = 0
+    bad = None
+    for f in c.confuse.funcs.values():
+        if f.name == 'cfg_parse_internal' or not any(True for _ in f.calls('cfg_yylex')):
+            continue
+        ex = sym.Explorer(c.modules, max_visits=2, mod_sets=c.mod_sets, max_paths=20000, once=('cfg_yylex',))
+        for p in ex.explore(f, call_results={'cfg_yylex': [('c', pm.TOKENS['COMMENT'])]}):
+            if not p.calls('cfg_yylex'):
+                continue
+            n += 1
+            if p.end != 'yield' or p.calls('cfg_error'):
+                bad = bad or (f, p)
+    if bad is not None:
+        f, p = bad
+        chk.fail(rid, 'comment-not-passed-over:%s' % f.name, c.where(p.last_ins) if p.last_ins is not None else c.where(f), '%s() fetches a token and, when that token is a comment, %s instead of '
+                 'fetching the next one: a comment between two tokens of the statement it reads makes the text fail (or is taken for a token of the statement)'
+                 % (f.name, 'reports "%s"' % (p.calls('cfg_error')[0].args[1][1] if p.calls('cfg_error') and p.calls('cfg_error')[0].args[1][0] == 'str' else 'an error') if p.calls('cfg_error') else 'returns'))
+    else:
+        chk.ok(rid, 'token fetches outside the automaton', '%d paths: none' % n if n == 0 else '%d paths fetch again on a comment' % n, nontrivial=False)
+
+
 def run(c, chk):
     chk.explanation = EXPLANATION
     chk.rule('R15.1', 'in every parser state the comment token loops back to the same state with no error and no effect '
@@ -25,6 +52,7 @@ def run(c, chk):
                       'attach duplicates it and sets the bit the printer tests; the printer writes it before the option')
     chk.trusted = ['flex tables', 'clang/opt IR']
     chk.assumptions = ['annotation text (trimming) is not computed']
+    token_fetchers(c, chk)
     model = pm.ParserModel(c)
     lex = c.lex
     dfa = lex.dfa
@@ -154,6 +182,10 @@ def run(c, chk):
         from . import c08 as _c08g
         chk.rule('R15.9', 'a comment leaves no scanner state behind: neither unit has a mutable global outside the reset disciplines (rule R8.0 of C08)')
         _c08g.classified_globals(c, chk, rid='R15.9', rid5='R15.9')
+        # R15.10: "annotations stick": an option that is assigned again keeps its annotation when the old values are dropped
+        from . import c01 as _c01d
+        chk.rule('R15.10', 'dropping the old values of an option under CFGF_RESET keeps its annotation: the mark is cleared after the release, not before (rule R10.4 of C10)')
+        _c01d.defaults_dropped_under_reset(c, chk, 'R15.10')
     marker_only(c, chk)
     attach_function(c, chk)
     printer_emits(c, chk)
